@@ -42,21 +42,32 @@ pub fn bulk_bound(double: bool) -> (u64, u64) {
 pub const SINGLE_OPS: [&str; 10] = ["push", "push_increase", "push_decrease", "change_priority", "change_priority_by", "remove", "pop_hi", "pop_min", "pop_hi_if", "pop_min_if"];
 pub const BULK_OPS: [&str; 5] = ["retain", "retain_mut", "iter_mut", "append", "convert"];
 
+/// The bound a transition named `op` on a queue of `n` elements must respect (None: not bounded by C05).
+pub fn small_scope_bound(op: &str, double: bool, n: usize) -> Option<(&'static str, u64)> {
+    if SINGLE_OPS.contains(&op) {
+        let (a, b) = single_bound(double);
+        Some(("single", a * ceil_log2(n) + b))
+    } else if BULK_OPS.contains(&op) {
+        let (cc, d) = bulk_bound(double);
+        // n = size before the call; append adds at most 3 more elements in the small scope
+        Some(("bulk", cc * (n as u64 + 3) + d))
+    } else if matches!(op, "clear" | "drain" | "clone" | "reserve" | "reserve_exact" | "try_reserve" | "try_reserve_exact" | "shrink_to_fit" | "get_mut") {
+        Some(("zero", 0))
+    } else {
+        None
+    }
+}
+
+/// Message for a transition that exceeds its bound (used by the explorer and by replay).
+pub fn small_scope_violation(op: &str, double: bool, n: usize, cmps: u64) -> Option<String> {
+    let (kind, bound) = small_scope_bound(op, double, n)?;
+    (cmps > bound).then(|| format!("{op} on a {} of {n} elements made {cmps} comparisons; the {kind} bound is {bound}", if double { "DoublePriorityQueue" } else { "PriorityQueue" }))
+}
+
 fn check_small_scope(costs: &BTreeMap<(String, bool, usize), u64>) -> Result<Vec<Value>, String> {
     let mut table = vec![];
     for ((op, double, n), &c) in costs {
-        let (kind, bound) = if SINGLE_OPS.contains(&op.as_str()) {
-            let (a, b) = single_bound(*double);
-            ("single", a * ceil_log2(*n) + b)
-        } else if BULK_OPS.contains(&op.as_str()) {
-            let (cc, d) = bulk_bound(*double);
-            // n = size before the call; append adds at most 3 more elements in the small scope
-            ("bulk", cc * (*n as u64 + 3) + d)
-        } else if matches!(op.as_str(), "clear" | "drain" | "clone" | "reserve" | "reserve_exact" | "try_reserve" | "try_reserve_exact" | "shrink_to_fit" | "get_mut") {
-            ("zero", 0)
-        } else {
-            continue;
-        };
+        let Some((kind, bound)) = small_scope_bound(op.as_str(), *double, *n) else { continue };
         if c > bound {
             return Err(format!(
                 "{op} on a {} of {n} elements made {c} comparisons in some explored state; the {kind} bound is {bound}",
